@@ -192,7 +192,7 @@ def build_modelrun() -> tuple[bool, str]:
     return True, logtxt
 
 
-def model_batch(requests: list[str], timeout=1200, shards=1) -> list[str]:
+def model_batch(requests: list[str], timeout=600, shards=1) -> list[str]:
     """Run request lines through the extracted model; returns answer lines."""
     if not requests:
         return []
